@@ -98,7 +98,7 @@ def _twin(line):
 def _shift_line(line, out, line2, out2, da, db, dc):
     if "BAD" in out or "BAD" in out2:
         return None
-    return "vsock_shift %d %d %d 1024 %s | %s | %s | %s" % (
+    return "vsock_shift_g %d %d %d 1024 %s | %s | %s | %s" % (
         da, db, dc, " ".join(line.split()[1:]), out, " ".join(line2.split()[1:]), out2)
 
 
